@@ -1188,6 +1188,46 @@ func runC13(c *h.Ctx) {
 			}
 		}
 	}
+	// arithmetic on the current item where the expression is evaluated against
+	// something else (a subscript of another array inside the filter): @ is the
+	// filtered item there too - against the reference model
+	{
+		docs := []string{`{"items":[3,4,6,7],"lookup":["fizz","a","b"],"arr":[0],"one":[5]}`, `{"items":[0,1,2],"lookup":[10,20,30],"arr":[1,2,3],"one":[7]}`}
+		ptxts := []string{`$.items[*] ? ($.lookup[@ % 3] == "fizz")`, `$.items[*] ? ($.lookup[@ % 3] == 10)`, `$.items[*] ? ($.arr[@ * 1] == 1)`, `$.items[*] ? ($.arr[@ - @] >= 0)`, `$.items[*] ? ($.lookup[@ - 3] == "fizz")`, `$.items[*] ? ($.lookup[0 to @ % 2] == 10)`,
+			`$.items[*] ? ($.one[@ * 0] == @ + 2)`, `$.items[*] ? ($.arr[-@ + @] == 0)`, `$.items[*] ? (exists($.lookup[@ / 3]))`, `$.items[*] ? ($.lookup[@ % 3 + 0].type() == "string")`}
+		k := 0
+		for _, d := range docs {
+			for _, pt := range ptxts {
+				for v := 0; v < 4; v++ {
+					k++
+					if !c.Mine(k) {
+						continue
+					}
+					txt := pt
+					if v&2 != 0 {
+						txt = "strict " + pt
+					}
+					ec, err := CaseFrom(h.Case{Path: txt, Doc: d, UseNum: v&1 != 0})
+					if err != nil {
+						c.Count("gen.unparsable", 1)
+						continue
+					}
+					o := h.Call("query", ec.P, ec.DocValue(), ec.Opts())
+					c.Eval(1)
+					switch verdict, feat, detail := modelVerdict(ec, o); {
+					case verdict == "held":
+						c.Held("operand-chain")
+					case strings.HasPrefix(verdict, "skip:"):
+						c.Skip("operand-chain", strings.TrimPrefix(verdict, "skip:"))
+					case feat["cause"] != "" && feat["cause"] != "unexplained":
+						c.Skip("operand-chain", "recorded-finding:"+feat["cause"])
+					default:
+						c.Violate("operand-chain", feat, detail, ec.Case())
+					}
+				}
+			}
+		}
+	}
 	// random pairs near the boundaries
 	r := c.Rand("c13")
 	n := c.PerShard(c.N(2000000, 20000000))
